@@ -126,7 +126,7 @@ def sequential_overlaps(sc, R):
     return out
 
 
-def liveness(kinds, maxc, timeout=1.5, reconfigure=False):
+def liveness(kinds, maxc, timeout=1.5, reconfigure=False, sequential=False):
     """An async-thread node that only returns once a heartbeat coroutine has made progress while it runs.
     kinds: resources of the sibling nodes.  Returns (ok, detail)."""
     ticks = [0]
@@ -153,7 +153,9 @@ def liveness(kinds, maxc, timeout=1.5, reconfigure=False):
     a_node.__qualname__ = a_node.__name__ = "a_node"
     quick.__qualname__ = quick.__name__ = "quick"
     t_node.__qualname__ = t_node.__name__ = "t_node"
-    xa = xn(a_node, resource=Resource.async_thread, priority=1)
+    # (sequential=True: the async-thread node that needs the loop is also a SEQUENTIAL node — it runs alone, and the loop
+    # still serves other coroutines while it does)
+    xa = xn(a_node, resource=Resource.async_thread, priority=1, is_sequential=sequential)
     xq = xn(quick, resource=Resource.async_thread, priority=2)
     xt = xn(t_node, resource=Resource.thread, priority=0)
 
